@@ -592,6 +592,12 @@ impl MmioDev for BarDev {
     }
 }
 
+thread_local! {
+    /// advertise the device-configuration window with exactly the given length (default: rounded
+    /// up to whole 32-bit words, as the driver-level families' configuration spaces assume)
+    pub static EXACT_CFG_LEN: std::cell::Cell<bool> = const { std::cell::Cell::new(false) };
+}
+
 /// A standard, well-formed virtio-pci function: all structures in a 64-bit BAR 4 (like QEMU).
 /// Returns the device state; the function is installed on the bus at `bdf` and its BAR mapped.
 pub fn install_standard(bdf: (u8, u8, u8), dev_type: u32, dev: VirtioPciDev, cfg_len: usize, with_devcfg: bool) -> Rc<RefCell<VirtioPciDev>> {
@@ -607,7 +613,7 @@ pub fn install_standard(bdf: (u8, u8, u8), dev_type: u32, dev: VirtioPciDev, cfg
     f.set_bar_address(1, 0xc000);
     f.command = 0x0007;
     let notify_len = std::cmp::max(2, 2 * nq * mult as usize + 2);
-    let cfg_words = cfg_len.div_ceil(4) * 4;
+    let cfg_words = if EXACT_CFG_LEN.with(|e| e.get()) { cfg_len } else { cfg_len.div_ceil(4) * 4 };
     let mut caps = vec![
         (0x40u8, vec![0x05, 0, 0x80, 0, 0, 0, 0, 0, 0, 0, 0, 0]), // MSI (foreign capability)
         (0x50, virtio_cap(16, 1, 4, 0x0000, 0x38, None)),
